@@ -36,7 +36,9 @@ func (r *byteReader) remaining() int {
 }
 
 func (r *byteReader) read(n int) ([]byte, error) {
-	if r.remaining() < n {
+	// n can come from a client-supplied uvarint: a value above MaxInt64 arrives
+	// here as a negative int and must not move the position backwards.
+	if n < 0 || r.remaining() < n {
 		return nil, fmt.Errorf("insufficient bytes: need %d have %d", n, r.remaining())
 	}
 	start := r.pos
